@@ -2,6 +2,7 @@ package props
 
 import (
 	"fmt"
+	"go/constant"
 	"go/token"
 	"strings"
 
@@ -70,6 +71,7 @@ func checkC03(r *core.Run) {
 	falseRes := an.FailKind{Result: 0, Kind: "false"}
 	// the point additions behind u1*G + u2*Q: equal operands take the doubling branch and leave (shared with C08)
 	c08SpecialCases(r, p, "R-C03-ranges")
+	c03HybridParity(r, p)
 
 	// ---- ECDSA ranges ----
 	ver := p.Func(secp + ".(*Signature).Verify")
@@ -710,4 +712,106 @@ func clip(s string, n int) string {
 		return s[:n] + "..."
 	}
 	return s
+}
+
+// c03HybridParity: a hybrid public key (prefix 06/07) is valid only if the prefix matches the parity of y
+// (06: even, 07: odd). The parser's parity test is evaluated for prefix in {4,6,7} x parity in {even,odd}:
+// it must be reached exactly for 6 and 7 and refuse exactly the two mismatching combinations.
+func c03HybridParity(r *core.Run, p *core.Program) {
+	const rule = "R-C03-keys"
+	fn := p.Func(secp + ".(*XY).ParsePubkey")
+	if fn == nil {
+		r.Fail(rule, "hybrid-prefix-parity", "-", "ParsePubkey not found")
+		return
+	}
+	var odd *ssa.Call
+	for _, c := range an.CallsTo(fn, false, "(*"+secp+".Field).IsOdd") {
+		if cc, ok := c.(*ssa.Call); ok {
+			odd = cc
+		}
+	}
+	if odd == nil {
+		r.Fail(rule, "hybrid-prefix-parity", p.Pos(fn.Pos()), "no parity test of y in the key parser")
+		return
+	}
+	// the branch that consumes the parity
+	var par *ssa.If
+	for _, b := range fn.Blocks {
+		if iff, ok := b.Instrs[len(b.Instrs)-1].(*ssa.If); ok {
+			uses := false
+			var walk func(v ssa.Value, d int)
+			walk = func(v ssa.Value, d int) {
+				if v == ssa.Value(odd) {
+					uses = true
+				}
+				if d > 6 {
+					return
+				}
+				switch x := v.(type) {
+				case *ssa.BinOp:
+					walk(x.X, d+1)
+					walk(x.Y, d+1)
+				case *ssa.UnOp:
+					walk(x.X, d+1)
+				case *ssa.Phi:
+					for _, e := range x.Edges {
+						walk(e, d+1)
+					}
+				}
+			}
+			walk(iff.Cond, 0)
+			if uses {
+				par = iff
+			}
+		}
+	}
+	if par == nil {
+		r.Fail(rule, "hybrid-prefix-parity", p.Pos(odd.Pos()), "the parity of y does not decide a branch")
+		return
+	}
+	// which outcome refuses: the successor that returns false at once
+	refuseOn := -1
+	for k, sc := range par.Block().Succs {
+		if ret, ok := sc.Instrs[len(sc.Instrs)-1].(*ssa.Return); ok && len(ret.Results) == 1 && an.Expr(ret.Results[0]) == "false" {
+			refuseOn = k
+		}
+	}
+	if refuseOn < 0 {
+		r.Fail(rule, "hybrid-prefix-parity", p.Pos(par.Pos()), "neither outcome of the parity test refuses the key")
+		return
+	}
+	// all loads of the prefix byte
+	var prefixLoads []ssa.Value
+	an.Instrs(fn, func(i ssa.Instruction) {
+		if v, ok := i.(ssa.Value); ok && an.Expr(v) == "param#1[0]" {
+			prefixLoads = append(prefixLoads, v)
+		}
+	})
+	var wrong []string
+	for _, k := range []int64{6, 7} {
+		for _, isOdd := range []bool{false, true} {
+			env := an.PEnv{odd: constant.MakeBool(isOdd)}
+			for _, v := range prefixLoads {
+				env[v] = constant.MakeInt64(k)
+			}
+			c, ok := an.PEval(par.Cond, env)
+			if !ok {
+				// the condition may be a phi of a short-circuit form: walk from the test's block
+				reach := an.PReach(par.Block(), env, nil)
+				refused := reach[par.Block().Succs[refuseOn]]
+				other := reach[par.Block().Succs[1-refuseOn]]
+				if refused == other {
+					wrong = append(wrong, fmt.Sprintf("prefix %02x, y odd=%v: undecided", k, isOdd))
+					continue
+				}
+				c = constant.MakeBool(refused == (refuseOn == 0))
+			}
+			refuses := constant.BoolVal(c) == (refuseOn == 0)
+			want := isOdd != (k == 7)
+			if refuses != want {
+				wrong = append(wrong, fmt.Sprintf("prefix %02x with y odd=%v is %s", k, isOdd, map[bool]string{true: "refused", false: "accepted"}[refuses]))
+			}
+		}
+	}
+	r.Check(len(wrong) == 0 && len(prefixLoads) > 0, rule, "hybrid-prefix-parity", p.Pos(par.Pos()), "06 requires even y, 07 requires odd y (all four combinations evaluated)", strings.Join(wrong, "; "))
 }
